@@ -17,6 +17,21 @@ func parseStrUint(buf []byte) (u uint) {
 	return
 }
 
+// subSecToMillis converts the digits of a SubSecTime value, a decimal fraction of a second, to milliseconds.
+func subSecToMillis(buf []byte) (ms uint16) {
+	n := 0
+	for i := 0; i < len(buf) && n < 3; i++ {
+		if buf[i] >= '0' && buf[i] <= '9' {
+			ms = ms*10 + uint16(buf[i]-'0')
+			n++
+		}
+	}
+	for ; n > 0 && n < 3; n++ {
+		ms *= 10
+	}
+	return ms
+}
+
 // trimNULBuffer removes trailing bytes from Buffer
 func trimNULBuffer(buf []byte) []byte {
 	for i := len(buf) - 1; i >= 0; i-- {
